@@ -21,6 +21,8 @@ CAP = 3   # max entries per queue while exploring
 # event name -> list of (sent name, delay) produced by the handler; names not listed are ignored
 CHARTS = {
     'flat': {'x': [], 'xs': [('ix', 0)], 'xd': [('iy', 2)], 'ix': [], 'xx': [('ix', 0), ('iy', 1)],
+             'xc': [('iq', 'c2')], 'iq': [],    # 'c2': send('iq', s=0, delay=2) - constant parameters, equal to the
+                                               # external Event('iq', s=0, delay=2) queued by op ('qc',)
              'xz': [('ix', 0), ('iz', '0!'), ('iw', 0)]},     # '0!' = an explicit delay=0
     'orth': {'x': [], 'xs': [('ix', 0)], 'xd': [('iy', 2)], 'ix': [('iz', 0)]},
     'move': {'x': [('en', 0)], 'xs': [('ix', 1), ('en', 0)], 'ix': [('en', 0)]},
@@ -35,6 +37,9 @@ def build_chart(kind):
     def act(name, sends):
         code = "P('h', %r, event.s)" % name
         for sn, d in sends:
+            if d == 'c2':
+                code += "; send(%r, s=0, delay=2)" % sn
+                continue
             code += "; c = c + 1; send(%r, s=c%s)" % (sn, ', delay=0' if d == '0!' else (', delay=%d' % d) if d else '')
         return code
     if kind == 'flat':
@@ -77,7 +82,7 @@ def ops_for(kind):
     if kind != 'move':
         ops += [('q', 'xd', 0)]
     if kind == 'flat':
-        ops += [('q', 'xx', 0), ('q', 'xz', 0)]
+        ops += [('q', 'xx', 0), ('q', 'xz', 0), ('q', 'xc', 0), ('qc',)]
     # q2 / q2d: several events in one queue() call (q2d: with decreasing delays)
     ops += [('q', 'x', '0!'), ('qi', 'ix', '0!'), ('q2', 'x', 'y'), ('q2d', 'x', 2, 'y', 1, 'x', 0)]
     return ops
@@ -97,6 +102,7 @@ class RefQueues:
         self.c = 1000       # counter used by the chart's own sends
         self.consumed = []
         self.queued = []    # every (serial, name, due) ever queued
+        self.last_internal = False
 
     def _put(self, q, due, serial, name):
         self.seq += 1
@@ -112,6 +118,9 @@ class RefQueues:
 
     def sends(self, lst):
         for name, d in lst:
+            if d == 'c2':
+                self._put(self.internal, self.now + 2, 0, name)
+                continue
             self.c += 1
             self._put(self.internal, self.now + (0 if d == '0!' else d), self.c, name)
 
@@ -132,6 +141,7 @@ class RefQueues:
             return ('none',)
         q.pop(0)
         due, seq, serial, name = e
+        self.last_internal = q is self.internal
         self.consumed.append(serial)
         h = CHARTS[self.kind]
         if self.kind == 'move':
@@ -161,6 +171,10 @@ def apply_op(it, ref, op, listener_log):
         ev = Event(op[1], s=s, delay=0) if op[2] == '0!' else (
             Event(op[1], s=s, delay=op[2]) if op[2] else Event(op[1], s=s))
         it.queue(ev)
+    elif k == 'qc':
+        ref.serial += 0
+        ref._put(ref.external, ref.now + 2, 0, 'iq')
+        it.queue(Event('iq', s=0, delay=2))
     elif k == 'q2d':
         evs = []
         for name, d in ((op[1], op[2]), (op[3], op[4]), (op[5], op[6])):
@@ -222,6 +236,10 @@ def compare_step(exp, st, ref, listener_log):
     _, serial, name, handled = exp
     if st.event is None:
         return ['expected %s(s=%d) to be consumed, step consumed nothing: %s' % (name, serial, st)]
+    if isinstance(st.event, InternalEvent) != ref.last_internal:
+        errs.append('consumed the %s event %s(s=%s), expected the %s one'
+                    % ('internal' if isinstance(st.event, InternalEvent) else 'external', st.event.name, st.event.s,
+                       'internal' if ref.last_internal else 'external'))
     if (st.event.name, st.event.s) != (name, serial):
         errs.append('consumed %s(s=%s), expected %s(s=%d) [internal first, (due, FIFO), delays]'
                     % (st.event.name, st.event.s, name, serial))
@@ -231,6 +249,24 @@ def compare_step(exp, st, ref, listener_log):
         errs.append("'event consumed' meta-events %r do not match the consumed event %r"
                     % (consumed_meta, st.event))
     return errs
+
+
+def crosscheck(it, ref):
+    """guard against latent divergence: when the private queues exist they must hold exactly what the reference
+    model holds (DESIGN.md §3.4; skipped silently if a refactoring removed the fields)"""
+    if not (hasattr(it, '_internal_queue') and hasattr(it, '_external_queue')):
+        return []
+    try:
+        got_i = [(t, e.name, e.data.get('s')) for t, e in it._internal_queue]
+        got_e = [(t, e.name, e.data.get('s')) for t, e in it._external_queue]
+    except Exception:
+        return []
+    want_i = [(due, name, serial) for due, _, serial, name in ref.internal]
+    want_e = [(due, name, serial) for due, _, serial, name in ref.external]
+    if got_i != want_i or got_e != want_e:
+        return ['queues hold internal %s / external %s, the reference model holds %s / %s'
+                % (got_i, got_e, want_i, want_e)]
+    return []
 
 
 def build(kind, sc, hist):
@@ -246,6 +282,8 @@ def build(kind, sc, hist):
 
 def enabled(ref, op):
     if op[0] == 'q':
+        return len(ref.external) < CAP
+    if op[0] == 'qc':
         return len(ref.external) < CAP
     if op[0] == 'q2':
         return len(ref.external) < CAP - 1
@@ -313,6 +351,8 @@ def expand(task):
             continue
         it, ref, ll = build(kind, sc, hist)
         errs = apply_op(it, ref, op, ll)
+        if not errs:
+            errs = crosscheck(it, ref)
         res['transitions'] += 1
         res['outcomes'][op[0]] += 1
         for e in errs:
